@@ -9,7 +9,7 @@ import math
 from fractions import Fraction
 
 from .. import par
-from ..fl import F, around, down, hx, unhx, uniq, up
+from ..fl import F, around, dec, down, enc, uniq, up
 
 INF = math.inf
 
@@ -176,29 +176,6 @@ DISPATCH = {"add": check_add, "cmp": check_cmp, "ff": check_from_float, "chain":
 
 def check_case(case):
     return DISPATCH[case[0]](case)
-
-
-def enc(case):
-    def e(x):
-        if isinstance(x, float):
-            return hx(x)
-        if isinstance(x, (list, tuple)):
-            return [e(y) for y in x]
-        return x
-    return e(case)
-
-
-def dec(case):
-    def d(x, top=False):
-        if isinstance(x, str) and not top:
-            try:
-                return unhx(x)
-            except ValueError:
-                return x
-        if isinstance(x, list):
-            return [d(y) for y in x]
-        return x
-    return [case[0]] + [d(y) for y in case[1:]]
 
 
 def cases(ctx):
